@@ -70,7 +70,14 @@ func (c *Config) MarshalBinary() ([]byte, error) {
 	})
 }
 
-func (c *Config) UnmarshalBinary(data []byte) error {
+func (c *Config) UnmarshalBinary(data []byte) (err error) {
+	// malformed input (an empty modulus, a null where a point is expected) makes the decoders of
+	// the underlying libraries panic: restoring must report an error instead
+	defer func() {
+		if r := recover(); r != nil {
+			err = fmt.Errorf("config: malformed encoding: %v", r)
+		}
+	}()
 	if c.Group == nil {
 		return errors.New("config must be initialized using EmptyConfig")
 	}
@@ -78,8 +85,12 @@ func (c *Config) UnmarshalBinary(data []byte) error {
 		ECDSA:   c.Group.NewScalar(),
 		ElGamal: c.Group.NewScalar(),
 	}
-	if err := cbor.Unmarshal(data, &cm); err != nil {
+	// decoding into &cm would let a CBOR null set cm itself to nil
+	if err := cbor.Unmarshal(data, cm); err != nil {
 		return fmt.Errorf("config: %w", err)
+	}
+	if cm.ECDSA == nil || cm.ElGamal == nil {
+		return errors.New("config: ECDSA or ElGamal secret key is missing")
 	}
 
 	// check ECDSA, ElGamal
@@ -93,6 +104,9 @@ func (c *Config) UnmarshalBinary(data []byte) error {
 	}
 	if err := paillier.ValidatePrime(cm.Q); err != nil {
 		return fmt.Errorf("config: prime Q: %w", err)
+	}
+	if _, eq, _ := cm.P.Cmp(cm.Q); eq == 1 {
+		return errors.New("config: Paillier primes are equal")
 	}
 	paillierSecret := paillier.NewSecretKeyFromPrimes(cm.P, cm.Q)
 
@@ -110,8 +124,15 @@ func (c *Config) UnmarshalBinary(data []byte) error {
 			return fmt.Errorf("config: party %s: duplicate entry", p.ID)
 		}
 
+		if p.ID == "" {
+			return errors.New("config: empty party id")
+		}
+
 		// handle our own key separately
 		if p.ID == cm.ID {
+			if err := pedersen.ValidateParameters(paillierSecret.PublicKey.N(), p.S, p.T); err != nil {
+				return fmt.Errorf("config: party %s: %w", p.ID, err)
+			}
 			ps[p.ID] = &Public{
 				ECDSA:    cm.ECDSA.ActOnBase(),
 				ElGamal:  cm.ElGamal.ActOnBase(),
